@@ -370,13 +370,16 @@ def T3(n=2, tz2="Asia/Kuala_Lumpur"):
     return s
 
 
-def T4(n=3, nsteps=3):
-    """one pattern; job A in steps 1 and 3 and twice in step 1; job B in step 2; both on one server"""
+def T4(n=3, nsteps=3, repeat=False):
+    """one pattern; job A in steps 1 and 3 and twice in step 1; job B in step 2; both on one server;
+    repeat: the journey visits the *same step object* twice ([step1, step2, step1]) instead of a third step"""
     s = T1(n)
     s["jobs"] = {"jobA": {"server": "srv"}, "jobB": {"server": "srv"}}
     s["steps"] = {"step1": {"jobs": ["jobA", "jobA"]}, "step2": {"jobs": ["jobB"]}}
     steps = ["step1", "step2"]
-    if nsteps >= 3:
+    if repeat:
+        steps.append("step1")
+    elif nsteps >= 3:
         s["steps"]["step3"] = {"jobs": ["jobA"]}
         steps.append("step3")
     s["journeys"]["uj"]["steps"] = steps
